@@ -150,6 +150,156 @@ GTC_UNIT = Unit("C04.get_true_caller", GTC, gtc_setup,
                              "f_globals.get('__name__', '') is a str; str.startswith is an opaque but functional predicate"])
 
 
+# ------------------------------------------------------------------------------------------------ greenlet stitching loops
+# this_thread_frames = the f_back chain of the true caller, then - for every greenlet parent in turn, up to the one without a
+# parent - the f_back chain of that parent's gr_frame (nothing for a parent that has no frame: dead or not started).
+ganc = Function("greenlet_parent_anc", Val, IntSort(), Val)     # ghost: m-th parent of the current greenlet
+goff = Function("C04.goff", IntSort(), IntSort())               # ghost: frames collected for greenlets [0, m)
+gown = Function("C04.gown", IntSort(), IntSort())               # ghost: which greenlet a collected frame belongs to
+
+
+def select_stitch_block(fi):
+    """the statements `this_thread_frames = []` ... `while greenlet is not None: ...` inside the cpython/greenlet branch"""
+    for n in ast.walk(fi.node):
+        if isinstance(n, ast.If) and "greenlet_getcurrent().parent" in ast.unparse(n.test):
+            out = []
+            for st in n.body:
+                if isinstance(st, ast.Try):
+                    break
+                out.append(st)
+            if any(isinstance(st, ast.While) for st in out):
+                return out
+    raise KeyError("contract anchor lost: greenlet stitching block of unwrap_stackslice not found")
+
+
+def st_setup(ex, p):
+    g0 = sym_ref(p, "current_greenlet", "greenlet")
+    c0 = sym_ref(p, "true_caller", "frame")
+    p.pc += [ganc(g0.t, 0) == g0.t, anc(c0.t, 0) == c0.t, goff(0) == 0]
+    ex.unit.bindings["greenlet_getcurrent"] = lambda ex_, p_, a, k, n: [("ok", p_, g0)]
+    ex.unit.bindings["get_true_caller"] = lambda ex_, p_, a, k, n: [("ok", p_, c0)]
+    ex.unit_args = dict(g0=g0, c0=c0)
+    return ex.unit_args
+
+
+def st_start(H, a, m):
+    return If(m == 0, a["c0"].t, H.getf(ganc(a["g0"].t, m), "gr_frame"))
+
+
+def st_elem_ok(ctx, pth, j, upper, mmax, frames=None):
+    a = ctx.ex.unit_args
+    H = ctx.H
+    fr = frames if frames is not None else ctx.v("this_thread_frames")
+    m = gown(j)
+    e = pth.read(fr, j, H)
+    return Implies(And(j >= 0, j < upper),
+                   And(m >= 0, m <= mmax, j - goff(m) >= 0, e == anc(st_start(ctx.H0, a, m), j - goff(m)), is_kind(e, "frame"),
+                       Implies(j + 1 < upper, gown(j) <= gown(j + 1))))
+
+
+def st_typed(H, g):
+    par, gf = H.getf(g, "parent"), H.getf(g, "gr_frame")
+    return And(Or(Val.is_none(par), And(is_kind(par, "greenlet"), Val.a(par) >= 0)), Or(Val.is_none(gf), And(is_kind(gf, "frame"), Val.a(gf) >= 0)))
+
+
+def st_outer_inv():
+    def setup(ctx):
+        ctx.p.ghost["st_m"] = IntVal(0)
+    def ghost_havoc(ctx):
+        ctx.p.ghost["st_m"] = fresh_int("st_m")
+    def qf(ctx):
+        a = ctx.ex.unit_args
+        m = ctx.p.ghost["st_m"]
+        g, cur, fr = ctx.v("greenlet"), ctx.v("current"), ctx.v("this_thread_frames")
+        return And(m >= 0, g == ganc(a["g0"].t, m), fr == ctx.v0("this_thread_frames"), ctx.H.lo_(fr) == 0, ctx.H.length(fr) == goff(m), goff(m) >= 0,
+                   Or(Val.is_none(g), And(is_kind(g, "greenlet"), Val.a(g) >= 0)),
+                   Implies(Not(Val.is_none(g)), cur == st_start(ctx.H0, a, m)),
+                   Or(Val.is_none(cur), And(is_kind(cur, "frame"), Val.a(cur) >= 0)))
+    def defs(ctx):
+        a = ctx.ex.unit_args
+        m = ctx.p.ghost["st_m"]
+        g = ctx.v("greenlet")
+        par = ctx.H0.getf(g, "parent")
+        return And(ganc(a["g0"].t, m + 1) == par, Implies(is_kind(g, "greenlet"), st_typed(ctx.H0, g)),
+                   Implies(is_kind(par, "greenlet"), st_typed(ctx.H0, par)),
+                   anc(st_start(ctx.H0, a, m), 0) == st_start(ctx.H0, a, m))
+    return Inv("C04.stitch.greenlets", qf=qf, defs=defs, setup=setup, ghost_havoc=ghost_havoc, conts=["this_thread_frames"],
+               header="greenlet is not None",
+               foralls=[("this_thread_frames", lambda ctx, pth, j: st_elem_ok(ctx, pth, j, goff(ctx.p.ghost["st_m"]), ctx.p.ghost["st_m"] - 1))])
+
+
+def st_inner_inv():
+    def qf(ctx):
+        a = ctx.ex.unit_args
+        m = ctx.p.ghost["st_m"]
+        cur, fr = ctx.v("current"), ctx.v("this_thread_frames")
+        n = ctx.H.length(fr)
+        return And(fr == ctx.v0("this_thread_frames"), ctx.H.lo_(fr) == 0, n >= goff(m), goff(m) >= 0, ctx.v("greenlet") == ctx.v0("greenlet"),
+                   cur == anc(st_start(ctx.ex.unit_args["H_outer"], a, m), n - goff(m)),
+                   Or(Val.is_none(cur), And(is_kind(cur, "frame"), Val.a(cur) >= 0)))
+    def defs(ctx):
+        a = ctx.ex.unit_args
+        m = ctx.p.ghost["st_m"]
+        cur, fr = ctx.v("current"), ctx.v("this_thread_frames")
+        n = ctx.H.length(fr)
+        fb = ctx.H.getf(cur, "f_back")
+        return And(anc(st_start(ctx.ex.unit_args["H_outer"], a, m), n - goff(m) + 1) == fb,
+                   Implies(is_kind(cur, "frame"), Or(Val.is_none(fb), And(is_kind(fb, "frame"), Val.a(fb) >= 0))))
+    def step(ctx):
+        m = ctx.p.ghost["st_m"]
+        n = ctx.H.length(ctx.v("this_thread_frames"))
+        ctx.p.pc.append(gown(n - 1) == m)        # ghost: the frame just appended belongs to greenlet m
+        return None
+    return Inv("C04.stitch.f_back_walk", qf=qf, defs=defs, conts=["this_thread_frames"], steps=[("C04.stitch.ghost_owner", step)],
+               header="current is not None",
+               foralls=[("this_thread_frames", lambda ctx, pth, j: st_elem_ok_inner(ctx, pth, j))])
+
+
+def st_elem_ok_inner(ctx, pth, j):
+    import types as _t
+    c2 = _t.SimpleNamespace(ex=ctx.ex, H=ctx.H, H0=ctx.ex.unit_args["H_outer"], v=ctx.v, p=ctx.p)
+    return st_elem_ok(c2, pth, j, ctx.H.length(ctx.v("this_thread_frames")), ctx.p.ghost["st_m"])
+
+
+def st_before_stmt(ex, n, p):
+    # remember the heap at the head of the outer loop body (the inner invariant speaks about start(m) in that heap)
+    if isinstance(n, ast.While) and "current is not None" in ast.unparse(n.test):
+        ex.unit_args["H_outer"] = p.snap()
+    if isinstance(n, ast.Assign) and ast.unparse(n).replace(" ", "") == "greenlet=greenlet.parent" and "st_m" in p.ghost:
+        # the inner walk of greenlet m is over: it must have ended exactly where that greenlet's f_back chain ends; the running
+        # count moves on (ghost definition of goff(m+1): each m is closed once)
+        a = ex.unit_args
+        m_old = p.ghost["st_m"]
+        H = p.snap()
+        n_now = H.length(p.env["this_thread_frames"].t)
+        ex.oblig("C04.stitch.each_greenlet_chain_walked_to_its_end", "clause", p,
+                 Val.is_none(anc(st_start(a["H_outer"], a, m_old), n_now - goff(m_old))))
+        p.pc.append(goff(m_old + 1) == n_now)
+        p.ghost["st_m"] = m_old + 1
+
+
+def st_post(ctx):
+    a = ctx.args
+    fr = ctx.env["this_thread_frames"].t
+    M = ctx.p.ghost["st_m"]
+    j = fresh_int("js")
+    import types as _t
+    c2 = _t.SimpleNamespace(ex=ctx.ex, H=ctx.H, H0=ctx.H0, v=lambda nm: fr, p=ctx.p)
+    return And(Val.is_none(ganc(a["g0"].t, M)), M >= 1, ctx.H.length(fr) == goff(M),
+               st_elem_ok(c2, ctx.p, j, goff(M), M - 1, frames=fr))
+
+
+STITCH_UNIT = Unit("C04.stitch_greenlet_parents", US, st_setup,
+                   post=[Clause("C04.stitch.all_parents_visited_and_every_frame_is_on_its_greenlets_chain", st_post, on=("normal",))],
+                   bindings=dict(EXTRACT_BINDINGS), methods=dict(STD_METHODS), known_classes=KNOWN, body_of=select_stitch_block,
+                   invariants={(US, "while#1"): st_outer_inv(), (US, "while#2"): st_inner_inv()}, before_stmt=st_before_stmt,
+                   allowed_raise=lambda ctx: BoolVal(False),
+                   assumptions=["ghost functions: greenlet_parent_anc (m-th parent), fback_anc (n-th f_back ancestor), C04.goff / C04.gown (running "
+                                "count / owner of a collected frame), each introduced by its defining equations",
+                                "a greenlet's parent is None or a greenlet, its gr_frame None or a frame; a frame's f_back None or a frame",
+                                "extraction: only the statements that build this_thread_frames are executed here"])
+
+
 # ------------------------------------------------------------------------------------------------ index / slice block
 def select_slice_block(fi):
     """the `try: from_idx ... except ValueError: pass else: frames = this_thread_frames[to_idx:from_idx:-1]` statement"""
@@ -276,4 +426,4 @@ SINCE_UNIT = Unit("C04.extract_since", EX + "extract_since", since_setup, post=[
                   allowed_raise=lambda ctx: And(is_kind(ctx.exc.t, "TypeError"), Not(Val.is_none(ctx.args["outer"].t)),
                                                 Not(is_kind(ctx.args["outer"].t, "frame"))))
 
-UNITS = [TF_UNIT, GTC_UNIT, SLICE_UNIT, LIMIT_UNIT, SINCE_UNIT]
+UNITS = [TF_UNIT, GTC_UNIT, STITCH_UNIT, SLICE_UNIT, LIMIT_UNIT, SINCE_UNIT]
